@@ -48,7 +48,7 @@ __CPROVER_ensures(gh_n_resume == __CPROVER_old(gh_n_resume))
   __CPROVER_assigns(CV_LOOP_LOCALS_qi_flush_0, MODEL_ASSIGNS) \
   __CPROVER_loop_invariant(FLUSH_INV(__CPROVER_loop_entry(gh_n_resume), __CPROVER_loop_entry(dq_npop))) \
   __CPROVER_loop_invariant(gh_RK < __CPROVER_loop_entry(gh_n_resume) ==> gh_res_trk == __CPROVER_loop_entry(gh_res_trk)) \
-  __CPROVER_loop_invariant(dq_npush == __CPROVER_loop_entry(dq_npush))
+  __CPROVER_loop_invariant(dq_npush == __CPROVER_loop_entry(dq_npush) && gh_allocs == __CPROVER_loop_entry(gh_allocs))
 void qi_flush(QIMPL_T *this_)
 __CPROVER_requires(Q_PRE && this_ == QIMPL)
 __CPROVER_assigns(MODEL_ASSIGNS_BASE)      /* as an abstract callee the drain does not touch the caller's DIRECT push/resume counters of gh_X */
@@ -56,7 +56,7 @@ __CPROVER_ensures(dq_head == dq_tail)                                           
 __CPROVER_ensures(FLUSH_INV(__CPROVER_old(gh_n_resume), __CPROVER_old(dq_npop)))
 __CPROVER_ensures(QI == __CPROVER_old(QI))
 __CPROVER_ensures(gh_RK < __CPROVER_old(gh_n_resume) ==> gh_res_trk == __CPROVER_old(gh_res_trk))   /* earlier log entries are history */
-__CPROVER_ensures(dq_npush == __CPROVER_old(dq_npush))                                          /* the drain itself queues nothing */
+__CPROVER_ensures(dq_npush == __CPROVER_old(dq_npush) && gh_allocs == __CPROVER_old(gh_allocs))   /* the drain itself queues nothing and allocates nothing (C20) */
 ;
 #endif
 
